@@ -377,8 +377,10 @@ const TEXTS: &[&str] = &[
     "&e;", "&nbsp;", "a&copy;b", "&e;&e;",
     // values a type-guessing renderer would react to
     "true", "false", "0", "1", "-1", "3.14", "1e3", "null", "NaN", "2024-09-28", "yes",
+    // characters that are legal content but that tools strip or treat as blank
+    "\u{feff}", "\u{a0}", "\u{3000}", "\u{200b}", "a\u{feff}b",
 ];
-const CDATAS: &[&str] = &["", "x", "<b>not an element</b>", " ", "]]", "&amp;", "a]]b", "-->", "?>", "текст"];
+const CDATAS: &[&str] = &["\u{feff}", "", "x", "<b>not an element</b>", " ", "]]", "&amp;", "a]]b", "-->", "?>", "текст"];
 const COMMENTS: &[&str] = &[
     "", " c ", "<x/>", "<x a='1'>", "- - ", "]]>", "?>", "&", "текст", " <r> ",
     // comments other tools give a meaning to (sample generators, editors, build systems)
@@ -736,8 +738,16 @@ pub fn gen_prolog(rng: &mut Rng, cfg: &GenCfg, root: &str) -> (Vec<Misc>, Vec<Mi
         }
         if rng.pct(30) {
             let d = rng.pick(DOCTYPES).to_string();
-            // keep the DOCTYPE name in line with the root where it is the plain form
-            pro.push(Misc::DocType(if d == "r" { root.to_string() } else { d }));
+            if rng.pct(40) && !cfg.attr_names.is_empty() {
+                // an internal subset that talks about this document's own names (declarations a DTD-aware tool would act on)
+                let e = if rng.pct(50) { root.to_string() } else { rng.pick(&cfg.elem_names).clone() };
+                let a = rng.pick(&cfg.attr_names).clone();
+                let dflt = *rng.pick(&["#IMPLIED", "#REQUIRED", "\"v\"", "#FIXED \"v\""]);
+                pro.push(Misc::DocType(format!("{root} [<!ELEMENT {e} ANY> <!ATTLIST {e} {a} CDATA {dflt}> <!ENTITY e \"v\">]")));
+            } else {
+                // keep the DOCTYPE name in line with the root where it is the plain form
+                pro.push(Misc::DocType(if d == "r" { root.to_string() } else { d }));
+            }
         }
         if rng.pct(20) {
             pro.push(Misc::PI(rng.pick(PIS).to_string()));
